@@ -637,6 +637,8 @@ class ExprMixin:
         return out
 
     def get_attr(self, st, base, attr, node):
+        if isinstance(base, VTuple) and attr in getattr(base, "names", ()):
+            return [(st, base.items[base.names.index(attr)])]       # field of a typing.NamedTuple instance
         if isinstance(base, VMod):
             return [(st, self.resolve_dotted(f"{base.name}.{attr}"))]
         if isinstance(base, VFunc) and base.how == "ext":
